@@ -126,6 +126,7 @@ func c08World(t *testing.T, p c08Params) rt.Result {
 			stream = append(stream, body...)
 		}
 		// suffix: would be legal progress in the state reached
+		suffixAt := len(stream)
 		switch state {
 		case stOpenSent:
 			stream = append(stream, wire.Msg(wire.TypeOpen, rc.StdOpen(ps.RemoteAS, 90, remoteIDu).Body())...)
@@ -133,6 +134,10 @@ func c08World(t *testing.T, p c08Params) rt.Result {
 			stream = append(stream, wire.Keepalive()...)
 		case stEstablished:
 			stream = append(stream, wire.Update(updBody(rc.ID, 9999))...)
+		}
+		closeAfter := p.Seed%3 == 0 && r.IntN(2) == 0
+		if closeAfter {
+			stream = stream[:suffixAt] // the stream ends with the faulty message: its last bytes come with the EOF
 		}
 		cs := cuts(r, len(stream))
 		if r.IntN(2) == 0 { // also cut exactly around the faulty header
@@ -142,7 +147,6 @@ func c08World(t *testing.T, p c08Params) rt.Result {
 		rc.W.Log.Add("tx", ps.Addr.String(), rc.ID, fmt.Sprintf("stream prefix=%d header=%s", p.Prefix, p.Header), "")
 		v.Kick()
 		rc.SendCuts(stream, cs, time.Nanosecond)
-		closeAfter := p.Seed%3 == 0 && r.IntN(2) == 0
 		if closeAfter {
 			// the remote hangs up at once: in these worlds the last bytes reach corebgp
 			// together with the end of the stream; what was sent still counts
@@ -277,6 +281,24 @@ func TestC08(t *testing.T) {
 			}
 			m[pos] = v
 			hs = append(hs, mkHeader(m, 19, 4), mkHeader(m, 29, 2), mkHeader(m, 18, 4), mkHeader(m, 19, 9), mkHeader(m, 65535, 0))
+		}
+	}
+	// marker corruptions next to 0xFF octets in the length and type fields (a marker is
+	// sixteen 0xFF octets in its sixteen positions, not sixteen 0xFF octets anywhere)
+	for _, pos := range [][]int{{0}, {7}, {15}, {3, 12}, {0, 8, 15}} {
+		for _, v := range []byte{0x00, 0xfe} {
+			m := make([]byte, 16)
+			for i := range m {
+				m[i] = 0xff
+			}
+			for _, q := range pos {
+				m[q] = v
+			}
+			for _, l := range []int{0x00ff, 0x01ff, 0x0fff, 0xff00, 0xffff} {
+				for _, ty := range []uint8{2, 4, 255} {
+					hs = append(hs, mkHeader(m, l, ty))
+				}
+			}
 		}
 	}
 	hs = append(hs, mkHeader(make([]byte, 16), 19, 4), mkHeader(make([]byte, 16), 0, 0))
